@@ -97,3 +97,37 @@ pub fn hex(bytes: &[u8]) -> String {
     }
     s
 }
+
+/// A generator whose state the harness can reset from outside while a long-lived `ArroyBuilder`
+/// holds the `&mut` to it: every build then starts from the seed of its own plan step, so that a
+/// build is a function of (database, options, seed) whatever happened to the builder before.
+#[derive(Clone)]
+pub struct SharedRng(pub std::sync::Arc<std::sync::Mutex<rand::rngs::StdRng>>);
+
+impl SharedRng {
+    pub fn reseed(&self, seed: u64) {
+        *self.0.lock().unwrap() = <rand::rngs::StdRng as rand::SeedableRng>::seed_from_u64(seed);
+    }
+}
+
+impl rand::RngCore for SharedRng {
+    fn next_u32(&mut self) -> u32 {
+        self.0.lock().unwrap().next_u32()
+    }
+    fn next_u64(&mut self) -> u64 {
+        self.0.lock().unwrap().next_u64()
+    }
+    fn fill_bytes(&mut self, dest: &mut [u8]) {
+        self.0.lock().unwrap().fill_bytes(dest)
+    }
+    fn try_fill_bytes(&mut self, dest: &mut [u8]) -> Result<(), rand::Error> {
+        self.0.lock().unwrap().try_fill_bytes(dest)
+    }
+}
+
+impl rand::SeedableRng for SharedRng {
+    type Seed = <rand::rngs::StdRng as rand::SeedableRng>::Seed;
+    fn from_seed(seed: Self::Seed) -> Self {
+        SharedRng(std::sync::Arc::new(std::sync::Mutex::new(<rand::rngs::StdRng as rand::SeedableRng>::from_seed(seed))))
+    }
+}
